@@ -218,6 +218,8 @@ def visitTcpC (t : TcpHdr) (ver : IpVersion) (ittl : Ttl) (ipHdrLen olen : Nat) 
   if !isValid fl ty then pure (.error .flags)
   else do
     let st ← walkC ty t.opts.length t.opts { quirks := q0 ++ tcpQuirks q0 t }
+    -- `options_malformed`: `split_first` / `first` / `get(len..)` only — no index, slice or arithmetic
+    let quirks := st.quirks ++ (if optionsMalformed t.opts then [.optBad] else [])
     let mtu : Option Nat := match st.mss, ver with          -- mtu.rs: saturating arithmetic only
       | some m, .v4 => extractMtu4 fl ipHdrLen t.doff m
       | some m, .v6 => extractMtu6 fl ipHdrLen t.doff m
@@ -225,7 +227,7 @@ def visitTcpC (t : TcpHdr) (ver : IpVersion) (ittl : Ttl) (ipHdrLen olen : Nat) 
     let wsize ← detectWinC t.window (st.mss.getD 0) 0 (st.olayout.contains .ts) ver
     let sig : TcpSig :=
       { version := ver, ittl := ittl, olen := olen, mss := st.mss, wsize := wsize, wscale := st.wscale,
-        olayout := st.olayout, quirks := st.quirks,
+        olayout := st.olayout, quirks := quirks,
         pclass := if t.payLen = 0 then .zero else .nonZero }
     let fc := fromClient fl
     pure (.ok { syn := if fc then some sig else none,
